@@ -1031,10 +1031,12 @@ static void sbaOps(Case& c, const std::vector<std::string>& ops, std::vector<cha
       char* p = mine.back();
       int slot = (op[1] - '0') % nMail;
       char* expected = nullptr;
+      if (N >= 8)
+        CanaryRef{reinterpret_cast<uint32_t*>(p)}.set(1, 0xFFFFFFFFu); // owner: mailbox (marked before it is published)
       if (mailbox[slot].compare_exchange_strong(expected, p)) {
         mine.pop_back();
-        if (N >= 8)
-          CanaryRef{reinterpret_cast<uint32_t*>(p)}.set(1, 0xFFFFFFFFu); // owner: mailbox
+      } else if (N >= 8) {
+        CanaryRef{reinterpret_cast<uint32_t*>(p)}.set(1, (uint32_t)threadIdx); // slot taken: still mine
       }
     } else if (op[0] == 'r') { // take a block from the mailbox and free it here (cross-thread dealloc)
       int slot = (op[1] - '0') % nMail;
